@@ -43,7 +43,7 @@ _S = {}
 
 def scratch():
     if "dir" not in _S or _S.get("pid") != os.getpid():
-        _S["dir"] = tempfile.mkdtemp(prefix="verif-c03-", dir="/dev/shm" if os.path.isdir("/dev/shm") else None)
+        _S["dir"] = tempfile.mkdtemp(prefix="verif-c03-")
         _S["pid"] = os.getpid()
         import atexit
 
